@@ -1031,6 +1031,51 @@ class SA(numpy.ndarray):
         # single-precision tag (only set by checks that model float32 inputs) follows views and copies
         if getattr(obj, "_is_f32", False):
             self._is_f32 = True
+        # integer / boolean element type (set by checks that model such inputs, and by *_like of such arrays):
+        # follows views and copies of the same data; results of arithmetic are new arrays and do not inherit it
+        idt = getattr(obj, "_idt", None)
+        if idt is not None and isinstance(obj, SA) and (self.base is obj or obj.base is not None and self.base is obj.base
+                                                         or getattr(self, "_copy_of", None) is obj):
+            self._idt = idt
+
+    def copy(self, *a, **k):
+        out = numpy.ndarray.copy(self, *a, **k)
+        idt = getattr(self, "_idt", None)
+        if idt is not None:
+            out._idt = idt
+        return out
+
+    def _cast_elem(self, v):
+        """what storing v into an integer / boolean array keeps of it (C cast: truncation toward zero; non-zero -> True)"""
+        idt = self._idt
+        v = Sym.lift(v)
+        if not v.isreal():
+            v = v.real
+        if idt.kind == "b":
+            if conc(v.re):
+                return Sym(1 if v.re != 0 else 0)
+            return Sym(z3.If(z(v.re) != 0, z3.RealVal(1), z3.RealVal(0)))
+        if conc(v.re):
+            out = Sym(int(v.re))
+        else:
+            t = z(v.re)
+            out = Sym(z3.If(t >= 0, z3.ToReal(z3.ToInt(t)), -z3.ToReal(z3.ToInt(-t))))
+        if idt.kind == "u" and idt.itemsize < 8 or idt.kind == "i" and idt.itemsize < 4:
+            St.notes.add("narrow integer dtypes: wrap-around on store is not modelled (truncation only)")
+        return out
+
+    def __setitem__(self, key, value):
+        if getattr(self, "_idt", None) is not None:
+            if isinstance(value, numpy.ndarray):
+                cv = numpy.empty(value.shape, dtype=object)
+                for i in numpy.ndindex(*value.shape):
+                    cv[i] = self._cast_elem(value[i])
+                value = cv
+            elif isinstance(value, (list, tuple)):
+                return self.__setitem__(key, numpy.array(value, dtype=object))
+            else:
+                value = self._cast_elem(value)
+        return numpy.ndarray.__setitem__(self, key, value)
 
     def __array_wrap__(self, out_arr, context=None, return_scalar=False):
         # reductions to 0-d give the element itself (as NumPy does for plain ndarrays)
@@ -1141,6 +1186,26 @@ def symarr(name, shape, cplx=False):
         n = name + "[" + ",".join(map(str, idx)) + "]"
         a[idx] = cvar(n) if cplx else var(n)
     return a.view(SA)
+
+
+def typed(a, dtype):
+    """mark a symbolic array as standing for an ndarray of an integer / boolean dtype (the caller constrains the
+    element values accordingly): *_like buffers made from it inherit the type and stores into them are C casts"""
+    a = a.view(SA)
+    a._idt = numpy.dtype(dtype)
+    return a
+
+
+def int_constraints(a, lo=None, hi=None):
+    out = []
+    for e in numpy.asarray(a, dtype=object).flat:
+        t = z(Sym.lift(e).re)
+        out.append(t == z3.ToReal(z3.ToInt(t)))
+        if lo is not None:
+            out.append(t >= lo)
+        if hi is not None:
+            out.append(t <= hi)
+    return out
 
 
 def terms_of(a):
